@@ -11,6 +11,7 @@ import (
 	"io"
 	"net"
 	"os"
+	"runtime"
 	"runtime/debug"
 	"strings"
 	"sync"
@@ -52,6 +53,8 @@ type AttemptPlan struct {
 
 // Scenario is a complete simulated run.
 type Scenario struct {
+	ValuesOnly   bool  // C08: the consumer keeps only the delivered value slices, drops the Transaction, and the garbage collector runs between deliveries
+	StartHigh    int64 // added to the start offset given to SetBinlogPosition (a multiple of 2^32)
 	Hist         *History
 	Start        Pos
 	ServerID     uint32
@@ -120,6 +123,7 @@ type Run struct {
 	parkedM       *MapperCall
 	calls         []*HandlerCall
 	Rewound       []rewind
+	gcRounds      int
 	mapperCalls   []*MapperCall
 	master        *simMaster
 	conn          *simConn
@@ -236,6 +240,23 @@ func (r *Run) handler(tx *gobinlog.Transaction) error {
 	if r.sc.Scribble && tx != nil {
 		call.ScribbleNote = scribble(tx, call.Snap)
 	}
+	if r.sc.ValuesOnly && tx != nil {
+		// keep the value bytes, forget the objects they hang on; whatever the library
+		// ties to the lifetime of those objects (finalizers, pools) gets its chance now
+		call.Kept = keepValues(tx, call.Snap)
+		call.Live = nil
+		if r.gcRounds < 3 {
+			// (a collection costs milliseconds in a worker process: the first few
+			// deliveries of a run get one, the end of the run gets two more)
+			r.gcRounds++
+			r.mu.Unlock()
+			runtime.GC()
+			for j := 0; j < 20; j++ {
+				runtime.Gosched()
+			}
+			r.mu.Lock()
+		}
+	}
 	r.parkedH = call
 	r.mu.Unlock()
 	verdict := <-call.release
@@ -246,6 +267,36 @@ func (r *Run) handler(tx *gobinlog.Transaction) error {
 	call.RetSeq = r.nextSeq()
 	r.mu.Unlock()
 	return verdict
+}
+
+// keptVal is one delivered value slice the consumer holds on to.
+type keptVal struct {
+	data, want []byte
+	where      string
+}
+
+func keepValues(tx *gobinlog.Transaction, snap *SnapTx) []keptVal {
+	var out []keptVal
+	for ei, e := range tx.Events {
+		if e == nil || ei >= len(snap.Events) {
+			continue
+		}
+		collect := func(kind string, rows []*gobinlog.RowData, srows [][]SnapCol) {
+			for ri, r := range rows {
+				if r == nil || ri >= len(srows) {
+					continue
+				}
+				for ci, c := range r.Columns {
+					if c != nil && len(c.Data) > 0 && ci < len(srows[ri]) {
+						out = append(out, keptVal{c.Data, srows[ri][ci].Data, fmt.Sprintf("event %d %s row %d column %d", ei, kind, ri, ci)})
+					}
+				}
+			}
+		}
+		collect("values", e.RowValues, snap.Events[ei].Values)
+		collect("identifies", e.RowIdentifies, snap.Events[ei].Identifies)
+	}
+	return out
 }
 
 // scribble overwrites every delivered value in place, checking after each
@@ -464,7 +515,9 @@ func (r *Run) sutStuck() bool {
 
 func (r *Run) newStreamer(start Pos) {
 	s, _ := gobinlog.NewStreamer(r.dsn(), r.sc.ServerID, r)
-	s.SetBinlogPosition(gobinlog.Position{Filename: start.File, Offset: start.Off})
+	// StartHigh: bits above the 32 the dump request can carry (Position.Offset is an
+	// int64; the request holds its low 32 bits, so the master sees the same coordinate)
+	s.SetBinlogPosition(gobinlog.Position{Filename: start.File, Offset: start.Off + r.sc.StartHigh})
 	r.streamer = s
 }
 
@@ -1242,6 +1295,25 @@ func (r *Run) abortAttempt() {
 }
 
 func (r *Run) finalCleanup() {
+	if r.sc.ValuesOnly {
+		for k := 0; k < 2; k++ {
+			runtime.GC()
+			for j := 0; j < 50; j++ {
+				runtime.Gosched()
+			}
+		}
+		for i, c := range r.calls {
+			for _, kv := range c.Kept {
+				if string(kv.data) != string(kv.want) {
+					r.Stability = append(r.Stability, fmt.Sprintf("delivery %d: a value the consumer kept (%s) changed after the Transaction it came in was dropped: %q, delivered as %q", i, kv.where, clip(kv.data, 40), clip(kv.want, 40)))
+					break
+				}
+			}
+			if len(r.Stability) > 0 {
+				break
+			}
+		}
+	}
 	// C08 stability: every retained live transaction still equals its snapshot
 	if !r.sc.Scribble {
 		for i, c := range r.calls {
